@@ -93,7 +93,7 @@ def replay_chain(ctx, mini, rec, k):
         drivers.append(("split", bufsizes(n_values)[k % (n_values + 3)], "bare", True, "alone"))
     for drv, bs, form, copy_buf, place in drivers:
         out = outcome(lambda: fl.drive_chain(ch, n_values, pairs, drv, bs, copy_buf=copy_buf, form=form, place=place,
-                                             variant=k), flowlib.project)
+                                             variant=k), fl.project2)
         ctx.case(["chain", drv, bs, form, place, ch, n_values, pairs], nontrivial=n_values > 0)
         if out != exp:
             kind = out if isinstance(out, str) else "results"
@@ -116,8 +116,8 @@ def replay_chain(ctx, mini, rec, k):
                                                                       "observed": got})
     # what reaches the accumulator
     acc = fl.RecAcc(fl.build_acc(ch["acc"]))
-    out = outcome(lambda: fl.drive_chain(ch, n_values, pairs, "fill_compute_seq", acc=acc), flowlib.project)
-    reached = [flowlib.project(v) for v in acc.reached]
+    out = outcome(lambda: fl.drive_chain(ch, n_values, pairs, "fill_compute_seq", acc=acc), fl.project2)
+    reached = [fl.project2(v) for v in acc.reached]
     exp_reach = [flowlib.norm_spec_val(v) for v in rec["reach"]]
     ctx.case(["reach", ch, n_values, pairs], nontrivial=n_values > 0)
     if reached != exp_reach:
@@ -151,12 +151,14 @@ def replay_extra(ctx, mini, rec, k):
     ch, n_values, pairs = rec["ch"], rec["N"], rec["fk"]
     if ch["post"] or ch["acc"] != "store1":
         return
+    if any(st["t"] == "nmap" for st in ch["pre"]):
+        return        # the numeric accumulators cannot be filled with None / mixed values
     name, make = extra_accumulators()[k % 5]
     size = (len(ch["pre"]), n_values, fl.chain_key(ch))
     tail = "%s:%s:N=%d:%s" % (name, fl.chain_key(ch), n_values, pairs)
     proxy = fl.RecAcc(make())
     outcome(lambda: fl.drive_chain(ch, n_values, pairs, "fill_compute_seq", acc=proxy), lambda v: v)
-    if [flowlib.project(v) for v in proxy.reached] != [flowlib.norm_spec_val(v) for v in rec["reach"]]:
+    if [fl.project2(v) for v in proxy.reached] != [flowlib.norm_spec_val(v) for v in rec["reach"]]:
         mini.fail("extra:reach", size, tail, {"chain": ch, "N": n_values, "pairs": pairs})
         return
 
@@ -443,6 +445,8 @@ def random_stage(rnd, alphabet):
         return {"t": "map", "f": "var", "attr": rnd.choice(["run", "fill", "compute", "request", "fill_into", "call", "reset", "all"])}
     if k == "runifdup":
         return {"t": "runifdup", "k": rnd.choice(["odd", "variable", "t"])}
+    if k == "sfilter":
+        return {"t": "sfilter", "s": rnd.choice(["not_even", "and_even_lt2", "or_even_lt2", "not_or", "and_not", "roe", "not_roe"])}
     if k == "runifseq":
         inner = rnd.choice([[{"t": "slice", "a": 1, "b": NONE, "s": 1}], [{"t": "slice", "a": 0, "b": 1, "s": 1}],
                             [{"t": "reverse"}], [{"t": "lagk", "k": 1}], [{"t": "lastk", "k": 1}],
@@ -455,11 +459,20 @@ def random_stage(rnd, alphabet):
 
 
 def random_chain(rnd):
-    pre = [random_stage(rnd, ["map", "map", "filter", "slice", "slice", "runif", "cfilter", "cfilter", "crunif", "varattr", "runifdup", "runifseq", "runifseq"])
+    pre = [random_stage(rnd, ["map", "map", "filter", "slice", "slice", "runif", "cfilter", "cfilter", "crunif", "varattr", "runifdup", "runifseq", "runifseq", "sfilter", "sfilter"])
            for _ in range(rnd.randint(0, 4))]
     pre = [st for st in pre if st.get("f") != "id"]
     post = [flowlib.random_stage(rnd, ["map", "filter", "slice", "count", "sum"]) for _ in range(rnd.randint(0, 2))]
     post = [st for st in post if st.get("f") != "id"]
+    if rnd.random() < 0.2:
+        # a callable returning None (or a bare 0) for some values; after it only elements that take any value
+        f = rnd.choice(["none_odd", "none_all", "zero_odd"])
+        tail = [flowlib.random_stage(rnd, ["slice"]) for _ in range(rnd.randint(0, 1))]
+        if f == "zero_odd":
+            return {"pre": pre[:2] + [{"t": "nmap", "f": f}] + tail,
+                    "acc": rnd.choice(["sum", "last", "store1", "cnt"]), "post": post}
+        return {"pre": pre[:2] + [{"t": "nmap", "f": f}] + tail, "acc": rnd.choice(["last", "store1", "cnt"]),
+                "post": [flowlib.random_stage(rnd, ["slice"]) for _ in range(rnd.randint(0, 1))]}
     return {"pre": pre, "acc": rnd.choice(["sum", "sum", "last", "store1", "cnt", "sumrun"]), "post": post}
 
 
@@ -474,7 +487,7 @@ def record_random(ctx, mini, rnd, count):
         copy_buf = place != "alone" or rnd.random() < 0.7
         form = rnd.choice(["tuple", "fcseq"])
         out = outcome(lambda: fl.drive_chain(ch, n_values, pairs, drv, bs, copy_buf=copy_buf, form=form, place=place,
-                                             variant=rnd.randint(0, 2)), flowlib.project)
+                                             variant=rnd.randint(0, 2)), fl.project2)
         if isinstance(out, str):
             trace.append({"e": out, "ch": ch, "N": n_values, "fk": pairs, "drv": drv, "bs": bs, "place": place})
         else:
@@ -482,10 +495,10 @@ def record_random(ctx, mini, rnd, count):
                           "out": out})
         if rnd.random() < 0.3:
             acc = fl.RecAcc(fl.build_acc(ch["acc"]))
-            r = outcome(lambda: fl.drive_chain(ch, n_values, pairs, "fill_compute_seq", acc=acc), flowlib.project)
+            r = outcome(lambda: fl.drive_chain(ch, n_values, pairs, "fill_compute_seq", acc=acc), fl.project2)
             if not isinstance(r, str):
                 trace.append({"e": "reach", "ch": ch, "N": n_values, "fk": pairs,
-                              "reach": [flowlib.project(v) for v in acc.reached]})
+                              "reach": [fl.project2(v) for v in acc.reached]})
     return trace
 
 
